@@ -397,6 +397,15 @@ func c09Run(c *fw.Ctx) {
 	for i, sp := range specs {
 		c.Share(len(specs)-i+1, func() { exploreSched(c, c09Scenario(c, sp)) })
 	}
+	// the retention scanner as a concurrent client (C12's scan ∥ deliver ∥ remove scenarios): a
+	// delivery that returned an id while the scan was running is present afterwards
+	for _, sp := range c12Specs() {
+		if sp.Kind == "race" {
+			sc := c12SchedScenario(c, sp)
+			sc.ID = "S21-retention-" + sp.ID
+			c.Share(4, func() { exploreSched(c, sc) })
+		}
+	}
 	// the full-stack scenario last, with all the time that is left
 	// (the mem variant with its size enforcer has 40k+ schedules already at bound 0: thorough only)
 	stack := fw.Pick(c, []string{"file"}, []string{"file", "mem"})
@@ -411,6 +420,14 @@ func c09Replay(c *fw.Ctx, raw json.RawMessage) {
 	_ = json.Unmarshal(raw, &cas)
 	for _, be := range []string{"mem", "file"} {
 		if sc := c09StackScenario(c, be); sc.ID == cas.Scenario {
+			replaySched(c, sc, raw)
+			return
+		}
+	}
+	for _, sp := range c12Specs() {
+		if "S21-retention-"+sp.ID == cas.Scenario {
+			sc := c12SchedScenario(c, sp)
+			sc.ID = cas.Scenario
 			replaySched(c, sc, raw)
 			return
 		}
